@@ -80,6 +80,52 @@ pub const KNOWN_THAWED: &str = "C06/write-through-a-just-thawed-deposed-leader-a
 
 static CASE_NO: AtomicU64 = AtomicU64::new(0);
 
+thread_local! {
+    /// contents a violation is about (served by some node only, or acknowledged and served by none): the wrapper
+    /// looks them up in the nodes' Raft logs after the cluster has been shut down
+    static SUSPECTS: std::cell::RefCell<Vec<String>> = std::cell::RefCell::new(vec![]);
+}
+
+fn suspect(c: impl Into<String>) {
+    SUSPECTS.with(|s| s.borrow_mut().push(c.into()));
+}
+
+/// open finding (DESIGN.md 8.4): a content that some node serves, or that was acknowledged, is in NO node's Raft log
+pub const KNOWN_NOT_IN_LOG: &str = "C06/content-served-or-acknowledged-that-is-in-no-nodes-raft-log";
+
+/// true iff `content` occurs in the payload of some entry of some node's Raft log (cluster must be shut down)
+fn in_some_log(c: &Cluster, content: &str) -> Result<bool, String> {
+    for nd in 0..c.nodes.len() {
+        let dir = c.nodes[nd].dir.join("data");
+        let copy = c.work.join(format!("logcopy-{}", nd));
+        std::fs::remove_dir_all(&copy).ok();
+        copy_dir(&dir, &copy).map_err(|e| format!("copy data dir of node {}: {}", nd + 1, e))?;
+        std::fs::remove_file(copy.join("db_lock")).ok();
+        let r = crate::c04::recover(&copy);
+        std::fs::remove_dir_all(&copy).ok();
+        let r = r.map_err(|e| format!("raft store of node {} does not open: {}", nd + 1, e))?;
+        let needle = format!("\"{}\"", content);
+        if r.entries.iter().any(|(_, _, p, _)| String::from_utf8_lossy(p).contains(&needle)) {
+            return Ok(true);
+        }
+    }
+    Ok(false)
+}
+
+fn copy_dir(from: &Path, to: &Path) -> std::io::Result<()> {
+    std::fs::create_dir_all(to)?;
+    for e in std::fs::read_dir(from)? {
+        let e = e?;
+        let p = e.path();
+        if p.is_dir() {
+            copy_dir(&p, &to.join(e.file_name()))?;
+        } else {
+            std::fs::copy(&p, to.join(e.file_name()))?;
+        }
+    }
+    Ok(())
+}
+
 fn content(key: usize, seq: u32) -> String {
     format!("key{}-seq{}", key, seq)
 }
@@ -111,7 +157,24 @@ pub fn run_case(case: &Case, work: &Path, seed: u64) -> CaseReport {
             }
         }
     };
-    let r = run_case_inner(case, &mut c);
+    SUSPECTS.with(|s| s.borrow_mut().clear());
+    let mut r = run_case_inner(case, &mut c);
+    let suspects: Vec<String> = SUSPECTS.with(|s| s.borrow().clone());
+    if matches!(r.verdict, Verdict::Violation(_)) && !suspects.is_empty() && is_open("C06", KNOWN_NOT_IN_LOG) && std::env::var("RNV_C06_STRICT").is_err() {
+        // evidence, not a guess: stop the nodes and read their logs
+        c.shutdown();
+        let mut all_absent = true;
+        for sct in &suspects {
+            match in_some_log(&c, sct) {
+                Ok(false) => {}
+                _ => all_absent = false,
+            }
+        }
+        if all_absent {
+            r.labels.push("known_content_in_no_log".into());
+            r.verdict = Verdict::Known(KNOWN_NOT_IN_LOG.into());
+        }
+    }
     if std::env::var("RNV_KEEP_WORK").is_ok() && matches!(r.verdict, Verdict::Violation(_)) {
         c.shutdown();
         eprintln!("kept {}", c.work.display());
@@ -351,7 +414,7 @@ fn run_case_inner(case: &Case, c: &mut Cluster) -> CaseReport {
         labels.insert("observed_restarted_node_reporting_nonvoter".into());
     }
     // a violation that involves a write acknowledged by a just-thawed former leader is the recorded open finding
-    let known_for_key = |k: usize, attempts: &Vec<Attempt>| -> bool { is_open("C06", KNOWN_THAWED) && attempts.iter().any(|a| a.key == k && a.acked && a.via_thawed_leader) };
+    let known_for_key = |k: usize, attempts: &Vec<Attempt>| -> bool { attempts.iter().any(|a| a.key == k && a.acked && a.via_thawed_leader) };
     // the sentinel writes of the harness (one fresh key each) are ordinary log entries: all nodes agree on them too
     {
         let mut views = vec![];
@@ -364,6 +427,13 @@ fn run_case_inner(case: &Case, c: &mut Cluster) -> CaseReport {
         for nd in 1..3 {
             if views[nd] != views[0] {
                 let diff: Vec<String> = views[0].iter().filter(|(k, v)| views[nd].get(*k) != Some(*v)).map(|(k, v)| format!("{}: node1={:?} node{}={:?}", k, v, nd + 1, views[nd].get(k))).take(6).collect();
+                for (k, v) in views[0].iter() {
+                    if views[nd].get(k) != Some(v) {
+                        for x in [v.clone(), views[nd].get(k).cloned().flatten()].into_iter().flatten() {
+                            suspect(x);
+                        }
+                    }
+                }
                 return CaseReport::violation(labels.into_iter().collect(), true, format!("nodes settled on different contents for sentinel keys: {:?}", diff));
             }
         }
@@ -381,9 +451,25 @@ fn run_case_inner(case: &Case, c: &mut Cluster) -> CaseReport {
         if vals[0] != vals[1] || vals[1] != vals[2] {
             let hs: Vec<String> = (0..3).map(|nd| format!("node{} history {:?} metrics {}", nd + 1, history(c, nd, k).unwrap_or_default(), c.metrics(nd).map(|m| format!("{}/log{}/app{}", m["state"], m["last_log_index"], m["last_applied"])).unwrap_or_default())).collect();
             let trail: Vec<String> = attempts.iter().filter(|a| a.key == k).map(|a| a.what.clone()).collect();
-            if known_for_key(k, &attempts) {
-                labels.insert("known_thawed_leader_write".into());
-                return CaseReport { labels: labels.into_iter().collect(), nontrivial: true, verdict: Verdict::Known(KNOWN_THAWED.into()) };
+            {
+                // the contents that are not served by every node
+                let mut distinct: Vec<&Option<String>> = vec![];
+                for v in &vals {
+                    if !distinct.contains(&v) {
+                        distinct.push(v);
+                    }
+                }
+                // every served content is disputed except the one the majority agrees on ... keep it simple: all of them
+                // but the committed one would be found in the logs, so look only at contents served by a minority
+                for v in &distinct {
+                    let n = vals.iter().filter(|x| x == v).count();
+                    if n == 1 {
+                        if let Some(x) = v {
+                            suspect(x.clone());
+                        }
+                    }
+                }
+                let _ = known_for_key(k, &attempts);
             }
             return CaseReport::violation(labels.into_iter().collect(), true, format!("nodes settled on different contents for key {} ({:?}): {:?}; {:?}; ops on the key: {:?}; panics / dead actors in the node logs: {:?}", k, KEYS[k], vals, hs, trail, (0..3).map(|nd| c.log_alarms(nd)).collect::<Vec<_>>()));
         }
@@ -401,9 +487,10 @@ fn run_case_inner(case: &Case, c: &mut Cluster) -> CaseReport {
         }
         if !admissible.contains(&vals[0]) {
             let trail: Vec<String> = ka.iter().map(|a| format!("{}{}", if a.seq == 0 { "remove".to_string() } else { format!("seq{}", a.seq) }, if a.acked { "(ok)" } else { "(no-ack)" })).collect();
-            if known_for_key(k, &attempts) {
-                labels.insert("known_thawed_leader_write".into());
-                return CaseReport { labels: labels.into_iter().collect(), nontrivial: true, verdict: Verdict::Known(KNOWN_THAWED.into()) };
+            if let Some(i) = last_acked {
+                if ka[i].seq > 0 {
+                    suspect(content(k, ka[i].seq));
+                }
             }
             return CaseReport::violation(
                 labels.into_iter().collect(),
@@ -427,10 +514,7 @@ fn run_case_inner(case: &Case, c: &mut Cluster) -> CaseReport {
                 };
                 for a in ka.iter().filter(|a| a.acked && a.seq > 0) {
                     if !h.contains(&content(k, a.seq)) {
-                        if a.via_thawed_leader && is_open("C06", KNOWN_THAWED) {
-                            labels.insert("known_thawed_leader_write".into());
-                            return CaseReport { labels: labels.into_iter().collect(), nontrivial: true, verdict: Verdict::Known(KNOWN_THAWED.into()) };
-                        }
+                        suspect(content(k, a.seq));
                         return CaseReport::violation(
                             labels.into_iter().collect(),
                             true,
@@ -496,8 +580,8 @@ pub fn main(ctx: &Ctx) -> i32 {
         std::fs::remove_dir_all(&work).ok();
         return 1;
     }
-    let n_rand = ctx.tier.pick(10u32, 120u32);
-    let n_tmpl = ctx.tier.pick(4u32, 40u32);
+    let n_rand = ctx.tier.pick(10u32, 64u32);
+    let n_tmpl = ctx.tier.pick(4u32, 24u32);
     let w2 = work.clone();
     let fail = run_cases(ctx, &stats, (|| case_strategy(true)) as fn() -> _, n_tmpl, 4, 8, move |c| run_case(c, &w2, seed));
     if fail.is_some() {
